@@ -66,6 +66,13 @@ fn has_ignored_ancestor(infos: &[StmtInfo], ign: &[Option<&'static str>], k: usi
 }
 
 pub fn check_program(ctx: &mut Ctx, id: &str, src: &str, c: &Cfg, family: &str) {
+    check_program_range(ctx, id, src, c, family, None)
+}
+
+/// With a range only oracle (1) is judged: an ignored statement is reproduced verbatim wherever
+/// the range boundaries fall (inside it, around it, elsewhere); what else is formatted under a
+/// range is C09's business.
+pub fn check_program_range(ctx: &mut Ctx, id: &str, src: &str, c: &Cfg, family: &str, range: crate::fmt::Range) {
     let ast = match fmt::parse(src, c) {
         Some(a) => a,
         None => return,
@@ -77,7 +84,7 @@ pub fn check_program(ctx: &mut Ctx, id: &str, src: &str, c: &Cfg, family: &str) 
         ctx.count("no_directive_effective");
         return;
     }
-    let out1 = match ctx.eval(id, src, c, None, false).result {
+    let out1 = match ctx.eval(id, src, c, range, false).result {
         Ok(t) => t,
         Err(_) => {
             ctx.inconclusive("program with directives did not format");
@@ -85,8 +92,11 @@ pub fn check_program(ctx: &mut Ctx, id: &str, src: &str, c: &Cfg, family: &str) 
         }
     };
     ctx.count_n("ignored_statements", n_ign as u64);
+    if range.is_some() {
+        ctx.count("range_evaluations");
+    }
     let case = || {
-        let mut v = case_json(id, src, c, None);
+        let mut v = case_json(id, src, c, range);
         v["family"] = json!(family);
         v
     };
@@ -111,6 +121,9 @@ pub fn check_program(ctx: &mut Ctx, id: &str, src: &str, c: &Cfg, family: &str) 
                 return;
             }
         }
+    }
+    if range.is_some() {
+        return;
     }
     // (2) everything else formatted as without the directives
     let defused = src.replace("stylua: ignore", "stylua: ignorx");
@@ -350,6 +363,22 @@ pub fn run_item(w: &W, ctx: &mut Ctx, mut i: usize) {
                         check_table_field(ctx, &id, prog, &c);
                     } else {
                         check_program(ctx, &id, prog, &c, &format!("pin:{name}"));
+                        if *w_ == 120 {
+                            // ranges: thirds, halves, and a boundary in the middle of the program's
+                            // directive-carrying statement (just after the first directive line)
+                            let n = prog.len();
+                            let mut rs: Vec<(Option<usize>, Option<usize>)> = vec![(Some(n / 3), Some(2 * n / 3)), (Some(n / 2), None), (None, Some(n / 2))];
+                            if let Some(d) = prog.find("stylua: ignore") {
+                                let after = prog[d..].find('\n').map(|p| d + p + 1).unwrap_or(n);
+                                let mid = (after + (n - after) / 3).min(n);
+                                rs.push((Some(mid), None));
+                                rs.push((None, Some(mid)));
+                                rs.push((Some(after), Some(mid)));
+                            }
+                            for (ri, r) in rs.into_iter().enumerate() {
+                                check_program_range(ctx, &format!("{id}:r{ri}"), prog, &c, &format!("pin:{name}"), Some(r));
+                            }
+                        }
                     }
                 }
             }
@@ -444,6 +473,31 @@ pub fn run_item(w: &W, ctx: &mut Ctx, mut i: usize) {
         return;
     }
     check_program(ctx, &format!("c08:gen:{}:{i}", ctx.seed), &text, &c, "gen");
+    // the same program under a range: boundaries at random offsets, or inside / at the edges of a
+    // statement (re-collected on the text with directives)
+    if let Some(ast2) = fmt::parse(&text, &c) {
+        let infos2 = stmts::collect(&ast2);
+        if infos2.is_empty() {
+            return;
+        }
+        let pick = |rng: &mut Rng| -> usize {
+            let st = &infos2[rng.below(infos2.len())];
+            match rng.below(4) {
+                0 => st.start,
+                1 => st.end,
+                2 => st.start + (st.end - st.start) / 2,
+                _ => rng.below(text.len() + 1),
+            }
+        };
+        let a = pick(&mut rng);
+        let b = pick(&mut rng);
+        let r = match rng.below(4) {
+            0 => (Some(a), None),
+            1 => (None, Some(a)),
+            _ => (Some(a.min(b)), Some(a.max(b))),
+        };
+        check_program_range(ctx, &format!("c08:gen:{}:{i}:r{:?}-{:?}", ctx.seed, r.0, r.1), &text, &c, "gen", Some(r));
+    }
 }
 
 pub fn replay(ctx: &mut Ctx, case: &serde_json::Value) {
@@ -452,6 +506,6 @@ pub fn replay(ctx: &mut Ctx, case: &serde_json::Value) {
     if case["id"].as_str().unwrap_or("").contains("tablefield") {
         check_table_field(ctx, "replay", src, &c);
     } else {
-        check_program(ctx, "replay", src, &c, case["family"].as_str().unwrap_or("replay"));
+        check_program_range(ctx, "replay", src, &c, case["family"].as_str().unwrap_or("replay"), crate::ctx::range_from_json(&case["range"]));
     }
 }
